@@ -108,7 +108,7 @@ def mc_cases(draw, tier):
                  mult=draw(st.sampled_from([1 / 16, 4.0, 1.0]) | logmult(1 / 16, 4)), uniform=draw(st.integers(0, 3)) == 0)
     else:
         c.update(width=draw(st.sampled_from([16, 4096, 17]) | st.floats(math.log(16), math.log(4096)).map(lambda v: int(round(math.exp(v))))),
-                 eps=draw(st.sampled_from([1e-5, 0.0, 1e-8])))
+                 eps=draw(st.sampled_from([1e-5, 0.0, 1e-8])), split=draw(st.sampled_from([1, 1, 2, 4, 16])), lead=draw(st.sampled_from([1, 2])))
     return c
 
 
@@ -172,13 +172,20 @@ def run_mc(c) -> CaseResult:
                 res.labels.append("vocab<8")
         else:
             W = c["width"]
-            x = torch.randn(max(1, N // W), W, generator=g).requires_grad_()
+            # the normalised width may be spread over several trailing dimensions (normalized_shape = (W/k, k)) and sit behind one
+            # or two leading dimensions
+            k_ = c.get("split", 1)
+            ns = (W,) if (k_ == 1 or W % k_) else (W // k_, k_)
+            rows = max(1, N // W)
+            lead = (rows,) if c.get("lead", 1) == 1 else (max(1, rows // 4), 4)
+            x = torch.randn(*lead, *ns, generator=g).requires_grad_()
             if op == "layer_norm":
-                y = U.layer_norm(x, (W,), torch.ones(W), torch.zeros(W), c["eps"])
+                y = U.layer_norm(x, ns, torch.ones(ns), torch.zeros(ns), c["eps"])
             else:
-                y = U.rms_norm(x, (W,), torch.ones(W), c["eps"])
+                y = U.rms_norm(x, ns, torch.ones(ns), c["eps"])
             y.backward(torch.randn(y.shape, generator=g))
-            info = f"(width={W})"
+            info = f"(normalized_shape={ns}, input {tuple(x.shape)})"
+            res.labels.append(f"normalized-dims={len(ns)}")
             band(res, f"{op}.out", rms(y), 0.9, 1.1, slack=0.005, info=info)
             band(res, f"{op}.grad_input", rms(x.grad), 0.9, 1.1, slack=0.005, info=info)
             res.nontrivial = True
